@@ -1273,6 +1273,22 @@ def run_overloads(chk):
         mi = L.MultiIndex(syms, sizes)
         add({"kind": "mi", "sizes": sizes, "idx": idx, "res": alg_project(astexport.export_expr(mi.global_index))},
             f"global_index:{'x'.join(map(str, sizes))}:lit{lit}", f"MultiIndex(sizes={sizes}, literal axis {lit}).global_index")
+    # the translation of UFL's complex-part operators (ufl_to_lnodes / _math_function) on REAL-typed operands
+    import basix.ufl  # noqa: PLC0415
+    import ufl  # noqa: PLC0415
+    um = ufl.Mesh(basix.ufl.element("Lagrange", "interval", 1, shape=(1,)))
+    uf = ufl.Coefficient(ufl.FunctionSpace(um, basix.ufl.element("Lagrange", "interval", 1)))
+    uops = {"conj": ufl.algebra.Conj(uf), "real": ufl.algebra.Real(uf), "imag": ufl.algebra.Imag(uf)}
+    xr, yr = L.Symbol("a", L.DataType.REAL), L.Symbol("b", L.DataType.REAL)
+    operands = {"sym": xr, "lit2.5": L.LiteralFloat(2.5), "litm1": L.LiteralFloat(-1.0), "neg": L.Neg(xr),
+                "mul": L.Mul(xr, L.LiteralFloat(2.5)), "sum": L.Add(xr, yr), "div": L.Div(xr, L.LiteralFloat(2.5))}
+    ncpart = 0
+    for opn, uop in sorted(uops.items()):
+        for okind, a in sorted(operands.items()):
+            res = L.ufl_to_lnodes(uop, a)
+            add({"kind": "cpart", "op": opn, "a": alg_project(astexport.export_expr(a)), "res": alg_project(astexport.export_expr(res))},
+                f"ufl_to_lnodes:{opn}:{okind}", f"{opn}({astexport.export_expr(a)}) -> {repr(astexport.export_expr(res))[:200]}")
+            ncpart += 1
     f = sdir / "alg-results.json"
     f.write_text(json.dumps(cases))
     r2, _ = run_tlc("alg-judge", "LExprAlgebra", "SPECIFICATION ASpec\nINVARIANT Judge\n", {"S6_ALG_CASES": str(f)})
@@ -1285,7 +1301,7 @@ def run_overloads(chk):
         chk.violation(key, f"operator overloads do not preserve the value: {what}", {"engine": "S6", "kind": kind, "case": by_id[cid]})
     nops = len(enum["ops"])
     chk.add(states=r2.distinct, transitions=r2.generated, traces_validated_against_impl=len(cases), evaluations=len(cases),
-            overload_cases=nops, overload_cases_raised=n_raised, float_product_cases=len(enum["products"]),
+            overload_cases=nops, overload_cases_raised=n_raised, float_product_cases=len(enum["products"]), complex_part_translation_cases=ncpart,
             multiindex_cases=len(enum["mi"]),
             distinct_nontrivial=len({json.dumps(c.get("res")) for c in cases if c["kind"] == "op" and not c["raised"]}))
     chk.add(rule="LExprAlgebra.tla enumerates operand kinds (LiteralFloat/LiteralInt/Python int/float of 0, 1, -1, 3|2.5, -3|-2.5, Symbol, "
